@@ -93,6 +93,20 @@ Definition ctx_eq (K1 K2 : ctx) : cres bool :=
             && Nat.eqb (width (k_tbl K1)) (width (k_tbl K2))
             && table_eqb (k_tbl K1) (k_tbl K2)).
 
+(* FormalContext.__getitem__ with two index lists, K[rows, cols] — the library's own way of
+   permuting / selecting:  data = self.data[rows, cols]  ->  _get_subtable(rows, cols);
+   names = slice_list(names, idx) = [names[x] for x in idx]  (given order) *)
+(* BinTableLists: [[data[i][j] for j in cols] for i in rows];  BinTableBitarray: fbarray of the same *)
+Definition A_subtable (t : table) (rs cs : list nat) : table :=
+  map (fun i => map (fun j => cell t i j) cs) rs.
+(* BinTableNumpy: self.data[rows][:, cols] *)
+Definition N_subtable (t : table) (rs cs : list nat) : table := N_slice t (Some rs) (Some cs).
+Definition subtable (b : backend) : table -> list nat -> list nat -> table :=
+  match b with BNumpy => N_subtable | _ => A_subtable end.
+Definition slice_names (names : list str) (idx : list nat) : list str := map (fun i => nth i names []) idx.
+Definition ctx_getitem (b : backend) (K : ctx) (rs cs : list nat) : cres ctx :=
+  mk_ctx (subtable b (k_tbl K) rs cs) (slice_names (k_on K) rs) (slice_names (k_an K) cs).
+
 Definition ctx_TT (b : backend) (K : ctx) : cres ctx := cbind (ctx_T b K) (ctx_T b).
 Definition ctx_invert2 (K : ctx) : cres ctx := cbind (ctx_invert K) ctx_invert.
 
